@@ -36,7 +36,9 @@ ASSUMPTIONS = [
 ]
 
 BOOK_A = {0: "no errors", 1: "first documented error", 2: "second documented error"}
-BOOK_B = {0: "no errors", 7: "error number seven"}
+# kernel B documents code 1 too (with its own message) but never returns it: a summary that
+# attributes kernel A's code 1 to kernel B then shows up as a wrong entry instead of a KeyError
+BOOK_B = {0: "no errors", 1: "kernel B's own first error", 7: "error number seven"}
 ALPHA = {"A": [0, 1, 2], "B": [0, 7]}
 KID = {"A": "kernel_00", "B": "kernel_01"}
 
@@ -285,6 +287,15 @@ def build_results(layout, codes):
     )
 
 
+class HarnessProblem(RuntimeError):
+    pass
+
+
+def _liesel_raised(e):
+    """True if liesel (or a library called by liesel) raised on a valid input: a violation."""
+    return not isinstance(e, HarnessProblem) and core.raised_in_repo(e)
+
+
 def df_rows(df, per_chain):
     """error_df -> {(kernel, code, msg, phase[, chain]): count}"""
     rows = {}
@@ -296,7 +307,7 @@ def df_rows(df, per_chain):
         if per_chain:
             key = key + (int(r["chain"]),)
         if key in rows:
-            raise RuntimeError(f"duplicate row {key} in error_df")
+            raise HarnessProblem(f"duplicate row {key} in error_df")
         rows[key] = r["count"]
     return rows
 
@@ -324,6 +335,8 @@ def check_pipeline(res, results, codes, phases, books, level, case, sample_info=
         log_all = results.get_error_log(False).unwrap()
         log_post_opt = results.get_error_log(True)
     except Exception as e:
+        if not _liesel_raised(e):
+            raise
         viol("log", f"get_error_log-raises-{type(e).__name__}", f"get_error_log raised {e!r}")
         res.outcome(level, tag, "log-raised")
         return
@@ -365,6 +378,8 @@ def check_pipeline(res, results, codes, phases, books, level, case, sample_info=
         try:
             summ = _make_error_summary(log_all, log_post_opt)
         except Exception as e:
+            if not _liesel_raised(e):
+                raise
             viol("summary", f"_make_error_summary-raises-{type(e).__name__}", f"_make_error_summary raised {e!r} for codes { {k: np.asarray(v).tolist() for k, v in codes.items()} }")
             res.outcome(level, tag, "summary-raised")
             return
@@ -408,9 +423,9 @@ def check_pipeline(res, results, codes, phases, books, level, case, sample_info=
             try:
                 df = shell.error_df(per_chain=per_chain)
                 got = df_rows(df, per_chain)
-            except RuntimeError:
-                raise
             except Exception as e:
+                if not _liesel_raised(e):
+                    raise
                 viol("df", f"error_df-per_chain-{per_chain}-raises-{type(e).__name__}", f"Summary.error_df(per_chain={per_chain}) raised {e!r} for codes { {k: np.asarray(v).tolist() for k, v in codes.items()} } phases {phases}")
                 ok = False
                 continue
@@ -575,11 +590,20 @@ def run_engine_unit(res, unit):
         exp_post[name] = np.stack(post, axis=1) if post else None
         exp_warm[name] = np.stack(warm, axis=1) if warm else None
 
-    summ = gs.Summary(results)
     n_post = exp_post["x"].shape[1]
     n_warm_trans = phases.count("w")
     n_warm_pos = 0 if exp_warm["x"] is None else exp_warm["x"].shape[1]
-    si = summ.sample_info
+    own_info = {"num_chains": chains, "sample_size_per_chain": n_post, "warmup_size_per_chain": n_warm_trans}
+    try:
+        summ = gs.Summary(results)
+        si = summ.sample_info
+    except Exception as e:
+        if not _liesel_raised(e):
+            raise
+        res.violation("engine-summary", f"Summary-raises-{type(e).__name__}-{spec['name']}", case, f"Summary(results) raised {e!r} on a valid run ({nk} kernels, schedule {sched})")
+        res.outcome("engine", "Summary", "raised", type(e).__name__)
+        summ = None
+        si = own_info
     if int(si["num_chains"]) != chains:
         res.violation("engine-sample-info", f"num_chains-{spec['name']}", case, f"sample_info num_chains {si['num_chains']} != {chains}")
     if int(si["sample_size_per_chain"]) != n_post:
@@ -594,7 +618,7 @@ def run_engine_unit(res, unit):
             res.violation("engine-stored", f"posterior-samples-{spec['name']}", case, f"stored posterior samples of {name!r} differ from the kernel's trajectory (shape {got.shape} vs {want.shape})")
 
     # whole pipeline on the engine's results, with the real Summary object
-    check_pipeline(res, results, tables, phases, books, "engine", case, summary_obj=summ)
+    check_pipeline(res, results, tables, phases, books, "engine", case, sample_info=own_info, summary_obj=summ)
     # per-chain pattern classes for the vacuity guard
     for c in range(chains if chains <= 7000 else 0):
         res.outcome("engine-chain", *ref.pattern_class({k: v[c : c + 1] for k, v in tables.items()}, phases))
@@ -608,7 +632,13 @@ def run_engine_unit(res, unit):
             except Exception as e:
                 res.outcome("arviz", "include_warmup-without-warmup", "raised", type(e).__name__)
             continue
-        idata = to_arviz_inference_data(results, include_warmup=include_warmup)
+        try:
+            idata = to_arviz_inference_data(results, include_warmup=include_warmup)
+        except Exception as e:
+            if not _liesel_raised(e):
+                raise
+            res.violation("arviz", f"to_arviz-raises-{type(e).__name__}-include_warmup-{include_warmup}-{spec['name']}", case, f"to_arviz_inference_data(include_warmup={include_warmup}) raised {e!r}")
+            continue
         groups = [("posterior", exp_post)] + ([("warmup_posterior", exp_warm)] if include_warmup else [])
         for gname, exp in groups:
             if not hasattr(idata, gname):
@@ -632,8 +662,14 @@ def run_engine_unit(res, unit):
 
     with tempfile.TemporaryDirectory(prefix="c19_") as d:
         path = os.path.join(d, "results.pkl")
-        results.pkl_save(path)
-        back = SamplingResults.pkl_load(path)
+        try:
+            results.pkl_save(path)
+            back = SamplingResults.pkl_load(path)
+        except Exception as e:
+            if not _liesel_raised(e):
+                raise
+            res.violation("pickle", f"pickle-raises-{type(e).__name__}-{spec['name']}", case, f"pkl_save/pkl_load raised {e!r}")
+            back = None
     fields = ["positions", "transition_infos", "generated_quantities", "tuning_infos", "kernel_states", "full_model_states", "kernel_classes", "kernels_by_pos_key"]
 
     def leaves_of(r):
@@ -659,7 +695,9 @@ def run_engine_unit(res, unit):
         return out
 
     missing = [f for f in fields if not hasattr(back, f)]
-    if missing:
+    if back is None:
+        pass
+    elif missing:
         res.violation("pickle", f"fields-missing-{spec['name']}", case, f"reloaded results lack fields {missing}")
     else:
         la, lb = leaves_of(results), leaves_of(back)
